@@ -20,6 +20,8 @@ pub enum ValMode {
     IncGaps,
     /// strictly increasing, huge steps
     IncHuge,
+    /// about half of the values are zero, the others small and unordered
+    Holes,
 }
 
 pub const BOUNDARY_VALUES: &[u64] = &[
@@ -67,6 +69,13 @@ pub fn assign(keys: Vec<Vec<u8>>, mode: ValMode, r: &mut StdRng) -> Vec<Kv> {
                 ValMode::IncHuge => {
                     acc += 1 + (u64::MAX / (n + 2));
                     acc
+                }
+                ValMode::Holes => {
+                    if r.gen_range(0, 2) == 0 {
+                        0
+                    } else {
+                        1 + r.gen_range(0, 1000)
+                    }
                 }
             };
             (k, v)
@@ -236,6 +245,7 @@ pub fn directed_shapes(r: &mut StdRng) -> Vec<(String, Vec<Vec<u8>>)> {
 }
 
 pub const VAL_MODES: &[ValMode] = &[
+    ValMode::Holes,
     ValMode::Zero,
     ValMode::Index,
     ValMode::IndexFrom(250),
